@@ -156,8 +156,17 @@ def reference(kind, tree, ext, adds, parent=None):
         e = True
     if parent is not None:
         ptrue = parent.true_set()
-        if not inter(true, ptrue) or inter(true, ptrue) != true:
-            return 'illegal'           # the serially applied constraint must stay inside the parent
+        if isinstance(parent, Atom):
+            if not inter(true, ptrue) or inter(true, ptrue) != true:
+                return 'illegal'           # the serially applied constraint must stay inside the parent
+        else:
+            # two-piece parent: X.680 only asks that the end points of the applied ranges are values of the parent; the result is
+            # the intersection. Verdicts are asserted for single-range children whose finite end points lie in the parent.
+            if not isinstance(tree, Atom) or not inter(true, ptrue):
+                return 'illegal'
+            lo, hi = bounds(true)
+            if (lo != -INF and not inter([(lo, lo)], ptrue)) or (hi != INF and not inter([(hi, hi)], ptrue)):
+                return 'illegal'
         proot, _ = parent.visible()
         if root is None:
             root = proot
@@ -220,7 +229,9 @@ def run(args):
         for t in trees(depth if not big else 1, big):
             forms = [('plain', False, None, None)]
             if not big:
-                forms += [('ext', True, None, None), ('ext_add', True, Atom(5, 5), None), ('serial', False, None, Atom(0, 3)), ('serial_wide', False, None, Atom(-INF, INF))]
+                forms += [('ext', True, None, None), ('ext_add', True, Atom(5, 5), None), ('serial', False, None, Atom(0, 3)), ('serial_wide', False, None, Atom(-INF, INF)),
+                          # parents made of two pieces with a gap: the applied constraint may straddle the gap and cut both pieces
+                          ('serial_gap1', False, None, Bin('|', Atom(0, 1), Atom(3, INF))), ('serial_gap2', False, None, Bin('|', Atom(-INF, 0), Atom(2, 3)))]
             for fname, ext, add, parent in forms:
                 for kind in (('INTEGER', 'SIZE') if not big else ('INTEGER',)):
                     if kind == 'SIZE' and any(x in t.text() for x in ('MIN', '-')):
